@@ -368,7 +368,7 @@ Proof.
 Qed.
 
 Lemma acked_counts_as_sent_frame s : pframe s (acked_counts_as_sent s).
-Proof. unfold acked_counts_as_sent. destruct (seq_gt _ _); [pf_triv|apply pframe_refl]. Qed.
+Proof. unfold acked_counts_as_sent. destruct (seq_gt _ _ && seq_lt _ _); [pf_triv|apply pframe_refl]. Qed.
 
 Lemma process_all_frame s : sframe s (process_all_incoming_messages cci s).
 Proof.
